@@ -31,3 +31,32 @@ package extrinsic
 //@   loop rangeindex#0
 //@     invariant conv: rangeindex >= -1 && rangeindex < len(rotatedU32) && len(rotated) == len(rotatedU32) && fresh(rotated) && len(rotatedU32) == types.ValidatorsCount
 //@     invariant frame: frame_only()
+
+// C35, GP (10.11)-(10.18): a verdict is good with a two-thirds-plus-one supermajority of positive votes, bad with
+// none, wonky with exactly one third; any other count rejects the whole extrinsic.
+//@ pred vote_ok(n) = n == types.ValidatorsCount*2/3 + 1 || n == 0 || n == types.ValidatorsCount/3
+//@ func CompareVerdictsWithPsi
+//@   props C35
+//@   ghost j int
+//@   requires cfg: cfg_ok()
+//@   ensures reject: (0 <= j && j < len(verdictSumSequence) && !vote_ok(verdictSumSequence[j].PositiveJudgmentsSum)) ==> result1 != nil
+//@   ensures accept: forall(k, 0, len(verdictSumSequence), vote_ok(verdictSumSequence[k].PositiveJudgmentsSum)) ==> result1 == nil
+//@   ensures count: result1 == nil ==> len(result0.Good) + len(result0.Bad) + len(result0.Wonky) == len(verdictSumSequence)
+//@   ensures fresh: result1 == nil ==> fresh(result0.Good) && fresh(result0.Bad) && fresh(result0.Wonky)
+//@   loop rangeindex#0
+//@     invariant range: rangeindex >= -1 && rangeindex < len(verdictSumSequence)
+//@     invariant seen: forall(k, 0, rangeindex+1, vote_ok(verdictSumSequence[k].PositiveJudgmentsSum))
+//@     invariant count: len(updates.Good) + len(updates.Bad) + len(updates.Wonky) == rangeindex+1
+//@     invariant lists: fresh(updates.Good) && fresh(updates.Bad) && fresh(updates.Wonky)
+//@     invariant frame: frame_only()
+
+// the posterior list is the prior list followed by new items: nothing already recorded is dropped or reordered
+//@ func updateListAndMap
+//@   props C35
+//@   requires m: itemMap != nil && len(list) < 4294967296 && len(newItems) < 4294967296
+//@   ensures prefix: len(result) >= len(list) && fresh(result) && forall(i, 0, len(list), result[i] == list[i])
+//@   ensures bound: len(result) <= len(list) + len(newItems)
+//@   assigns everything
+//@   loop rangeindex#0
+//@     invariant range: rangeindex >= -1 && rangeindex < len(newItems) && itemMap != nil
+//@     invariant prefix: len(local_result) >= len(list) && len(local_result) <= len(list) + rangeindex + 1 && fresh(local_result) && forall(i, 0, len(list), local_result[i] == list[i])
